@@ -60,7 +60,21 @@ def url_text(rng):
     return pre + spell_scheme(rng, sch) + colon + rest + post
 
 
+EMAIL_LOCAL = list("abcxyz019") + list(".!#$%&'*+/=?^_`{|}~-")
+
+
+def email_doc(rng):
+    """an e-mail autolink whose local part runs over everything the autolink rule's pattern admits (several of those characters are
+    not URL-safe and must arrive percent-encoded in the href), alone or inside a container / next to other inline text"""
+    local = "".join(rng.choice(EMAIL_LOCAL) for _ in range(rng.randrange(1, 9)))
+    dom = rng.choice(["example.com", "x.y", "a-b.c-d.ef", "h"])
+    a = f"<{local}@{dom}>"
+    return rng.choice([a, f"see {a} zqMARKERqz", f"> {a}", f"- *{a}*", f"# {a}", f"| {a} |\n|---|", f"[{a}](/u)"]) + "\n", a
+
+
 def producer_doc(rng):
+    if rng.random() < 0.12:
+        return email_doc(rng)
     u = url_text(rng)
     mark = "zqMARKERqz"
     forms = [
